@@ -471,7 +471,7 @@ func cmdCheck(args []string) int {
 			}
 			key := h.Fn + ":" + v.Label
 			if !confirmed {
-				fmt.Printf("INCONCLUSIVE property=%s harness=%s candidate %q did not reproduce natively (%s); inputs %s\n", id, h.Fn, v.Label, detail, mustJSON(v.Inputs))
+				fmt.Printf("INCONCLUSIVE property=%s harness=%s candidate %q did not reproduce natively (%s); inputs %s engine-observed %v\n", id, h.Fn, v.Label, detail, mustJSON(v.Inputs), v.Observed)
 				totalUndec++
 				continue
 			}
